@@ -185,6 +185,13 @@ theorem cntRelE (eq : Bool) : HRelE (fun n => isHTmp n = false) (eq = false) (Cn
     simp only [gccState, pendSets_append, pendSets, hs, List.append_nil, List.count_append]
     simp only [List.count_nil, Nat.zero_add] at this
     cases eq <;> simp only [R_false, R_true] at this ⊢ <;> omega
+  seq := fun s name exts cargs v => Cnt.of_push (freshRelE.seq s name exts cargs v) rfl (fun x hnd => by
+    have := pop_count eq s.pending (tmpsOfPures cargs ++ tmpsOfPure v) hnd x
+    have hs : (seqPend s name exts cargs v).sets
+        = setTmpsL ((popPending s.pending (tmpsOfPures cargs ++ tmpsOfPure v)).1.map Pend.render) ++ [tmpName s.hyb] := by
+      simp [Pend.sets, seqPend, vcallEffect, setTmps, isHTmp_tmpName]
+    simp only [seqState, pendSets_append, pendSets, hs, List.append_nil, List.count_append]
+    cases eq <;> simp only [R_false, R_true] at this ⊢ <;> omega)
 
 end C06
 end Rzil
